@@ -81,6 +81,10 @@ pub struct Coverage {
     /// small exact sets (e.g. SGR codes hit, table entries hit), keyed by name
     pub sets: BTreeMap<String, HashSet<u64>>,
     pub samples: Vec<serde_json::Value>,
+    /// set by a check: was the oracle of this property evaluated on a non-trivial case in the
+    /// run just executed (the property's own rule, see its `rule` text)
+    #[serde(skip)]
+    pub nontrivial: Option<bool>,
 }
 
 impl Coverage {
